@@ -1,7 +1,7 @@
 (* Props/C07.v — C07: the CSS lexer follows the CSS Syntax token grammar; IsIdent / IsURLUnquoted agree
    with it.  Also holds the CSS-lexer instances of C01 (no crash / hang / over-read) and C02 (tokens are
    faithful slices).  Statements only; each is closed by [exact] of a lemma proved under Css/. *)
-From Verif Require Import Common.Base Common.Lx Css.Model Css.Proofs.
+From Verif Require Import Common.Base Common.Lx Css.Model Css.Proofs Css.Agree.
 
 (* C01: from every state reachable between two calls, Next returns (no panic: no read outside the
    buffer data ++ [0]) and re-establishes the invariant. *)
@@ -48,3 +48,22 @@ Theorem css_tiling : forall d toks, css_lex d = LexDone toks ->
      b = slice d (len (concat (map snd pre))) (len (concat (map snd pre)) + len b)).
 Proof. exact css_tiling_proof. Qed.
 Print Assumptions css_tiling.
+
+(* C07: IsIdent never panics, and for a non-empty argument it is true exactly when the whole argument lexes
+   as one Ident or CustomPropertyName token. *)
+Theorem isident_agrees : forall b,
+  (exists r, is_ident b = Some r) /\
+  (b <> [] ->
+   (is_ident b = Some true <->
+    exists ty, css_lex b = LexDone [(ty, b)] /\ (ty = TIdent \/ ty = TCustomPropertyName))).
+Proof. intros b. split; [apply is_ident_total|apply isident_agrees_proof]. Qed.
+Print Assumptions isident_agrees.
+
+(* C07: IsURLUnquoted never panics, and it is true only if "url(" ++ b ++ ")" lexes as one URL token
+   (url_open = "url("; 41 = ')'). *)
+Theorem isurl_sound : forall b,
+  (exists r, is_url_unquoted b = Some r) /\
+  (is_url_unquoted b = Some true ->
+   css_lex (url_open ++ b ++ [41]) = LexDone [(TURL, url_open ++ b ++ [41])]).
+Proof. intros b. split; [apply is_url_unquoted_total|apply isurl_sound_proof]. Qed.
+Print Assumptions isurl_sound.
